@@ -101,14 +101,18 @@ def parseEvents (s : String) : Option (List Ev) :=
 def showState (ret : Bool) (s : State) : String :=
   s!"{ret}:{hexEnc s.buffer.content}:{s.buffer.dot}:{hexEnc s.inserts}:{hexEnc s.last.content}:{s.last.dot}:{s.pasting}:{hexEnc s.pasteBuffer}"
 
-def runSeq (E : Env) (S : Spec) : State → List Ev → List String → List String
-  | _, [], acc => acc.reverse
+/-- `none` = some intermediate buffer contains a rune the table does not cover
+(possible only in the malformed stream, where deleting bytes can join fragments
+into a new rune); the implementation side reports the same condition. -/
+def runSeq (t : Table) (S : Spec) : State → List Ev → List String → Option (List String)
+  | _, [], acc => some acc.reverse
   | s, e :: rest, acc =>
     let S' := { S with quote := fun t => if t == e.raw then e.quoted else strBytes "<quote-mismatch>" ++ t }
-    match step E S' s e.ev with
-    | .ok (s', ret) => runSeq E S s' rest (showState ret s' :: acc)
-    | .exc x => (x :: acc).reverse
-    | .panic _ => ("PANIC" :: acc).reverse
+    match step t.env S' s e.ev with
+    | .ok (s', ret) =>
+      if t.covers s'.buffer.content then runSeq t S s' rest (showState ret s' :: acc) else none
+    | .exc x => some (x :: acc).reverse
+    | .panic _ => some ("PANIC" :: acc).reverse
 
 /-- raw rune values of key events (the model consults `IsGraphic` on them) -/
 def evKeyRunes (e : Ev) : List Rune :=
@@ -144,8 +148,9 @@ def stepLine : List String → String
       if !(pieces.all t.covers) || !((evs.flatMap evKeyRunes).all fun r => t.any (·.1 == r)) then "bad-table" else
       let S : Spec := { simple := pS, command := pC, smallWord := pW, quotePaste := q == "1", quote := id }
       let s0 : State := { buffer := ⟨buf, dot⟩, inserts := [], last := ⟨[], 0⟩, pasting := false, pasteBuffer := [] }
-      let out := runSeq t.env S s0 evs []
-      if out.isEmpty then "-" else "|".intercalate out
+      match runSeq t S s0 evs [] with
+      | none => "bad-table"
+      | some out => if out.isEmpty then "-" else "|".intercalate out
     | _, _, _, _, _, _, _ => "bad-op"
   | _ => "bad-op"
 
